@@ -273,6 +273,31 @@ func (p *specParser) postfix() (*SExpr, error) {
 			if t.k != "id" && t.k != "int" {
 				return nil, fmt.Errorf("field name expected in %q", p.src)
 			}
+			if p.isOp("(") && e.Kind == SIdent && t.k == "id" {
+				// pkg.Func(args): a call of a function of an imported package
+				p.next()
+				var args []*SExpr
+				if !p.isOp(")") {
+					for {
+						a, err := p.expr(0)
+						if err != nil {
+							return nil, err
+						}
+						args = append(args, a)
+						if p.isOp(",") {
+							p.next()
+							continue
+						}
+						break
+					}
+				}
+				if !p.isOp(")") {
+					return nil, fmt.Errorf(") expected in %q", p.src)
+				}
+				p.next()
+				e = &SExpr{Kind: SCall, Name: e.Name + "." + t.s, Args: args}
+				continue
+			}
 			e = &SExpr{Kind: SSel, Name: t.s, Args: []*SExpr{e}}
 		case p.isOp("["):
 			p.next()
